@@ -30,6 +30,15 @@ Check refuted_snake_collision.
 Check refuted_path_collision.
 Check error_anon_duplicates.
 
+(* the build-script helpers leave exactly the emitted code in their output file, whatever an earlier build left there
+   (the opening mode of both helpers is regenerated from varlink_generator/src/lib.rs) *)
+From VL Require Import GenFront.
+From VLG Require Import GenFrontGen.
+Theorem C09_build_helpers_leave_exactly_the_emitted_code : forall old out,
+  file_after build_open old out = out /\ file_after tosource_open old out = out.
+Proof. intros old out. split; exact (create_leaves_exactly_the_output old out). Qed.
+Print Assumptions C09_build_helpers_leave_exactly_the_emitted_code.
+
 (* tie: the functions this property's model describes by hand (not by translation) still have the pinned text; an
    edit to one of them breaks this obligation and sends the check searching for a failing input *)
 From VLG Require Import ShapeGen.
